@@ -228,12 +228,12 @@ struct MtHarness {
 		if(used_mid < used_end) throw Violation{"C05", "mt:page-counter", "page counter grew while freeing"};
 		(void)nlarge;
 		// the pool still works: fill a whole slab worth of the largest class plus one, all distinct
-		int maps_before = W.maps;
+		int maps_before = W.maps; size_t regions_before = W.regions.size();
 		std::vector<uintptr_t> got;
 		for(int i = 0; i < 7; i++) { void *p = pool().allocate(1024); if(!p) throw Violation{"C05", "mt:epilogue-null", "allocation failed in the epilogue"}; for(auto q : got) if(q == (uintptr_t)p) throw Violation{"C05", "mt:epilogue-duplicate", "the epilogue received the same block twice (free list corrupted)"}; got.push_back((uintptr_t)p); memset(p, 0x5a, 1024); }
 		// 7 objects need at most 3 slabs in total
 		size_t slabs1024 = 0; for(auto &r : W.regions) { (void)r; slabs1024++; }
-		if(W.maps - maps_before > 3) throw Violation{"C05", "mt:epilogue-footprint", "the epilogue mapped more slabs than 7 objects can need (a slab with free objects was lost)"};
+		if(W.regions.size() > regions_before + 3) throw Violation{"C05", "mt:epilogue-footprint", "the epilogue mapped more slabs than 7 objects can need (a slab with free objects was lost)"};
 		for(auto q : got) pool().free((void *)q);
 		log = "maps=" + std::to_string(maps_before) + " unmaps=" + std::to_string(W.unmaps);
 	}
